@@ -88,6 +88,8 @@ CHECKS["C05"]["rule"] += ("; third run directly on ugm.Manager: sequences of Upd
 CHECKS["C09"] = world("C09", "TestC09", HIST + "profile reserve (reservation delay 0, small nodes, 30% required-node asks); non-trivial = a reservation was made and one was removed by "
     "something other than a scheduling cycle (ask/app/node removal, RM reported binding)")
 CHECKS["C10"] = world("C10", "TestC10", HIST + "profile churn-apps; non-trivial = an application that visited at least 4 states")
+CHECKS["C10"]["runs"].append({"test": "TestC10Gang", "shards_quick": 6, "checks_quick": 250, "shards_thorough": 8, "checks_thorough": 4000})
+CHECKS["C10"]["rule"] += "; second run: profile gang with frequent releases, non-trivial = an application that visited at least 4 states and a confirmed placeholder replacement"
 CHECKS["C11"] = world("C11", "TestC11", HIST + "profile churn-apps with max-applications on leaf/parent/root, templates and tags; non-trivial = the gate was evaluated for a limit on an ancestor "
     "or at least twice")
 
